@@ -16,6 +16,9 @@ NCPU = os.cpu_count() or 4
 GOENV = dict(GOFLAGS="-mod=mod", GOPROXY="off", GOSUMDB="off", GOTOOLCHAIN="local")
 
 
+REPLAY_MODE = False
+
+
 class Machinery(Exception):
     """A problem of the machinery itself (exit 2)."""
 
@@ -59,9 +62,17 @@ def build_harness(race=False, tags="verif"):
     name = "vdrive" + ("-race" if race else "") + ("" if tags == "verif" else "-" + tags.replace(",", "_"))
     dst = os.path.join(OUT, "bin", name)
     hdir = os.path.join(VERIF, "harness")
+    if REPO != "/repo":
+        # development aid: check a scratch copy / worktree of the repository (VERIF_REPO=<dir>) without touching /repo
+        tag = hashlib.sha1(REPO.encode()).hexdigest()[:10]
+        alt = os.path.join(OUT, "harness-" + tag)
+        shutil.rmtree(alt, ignore_errors=True)
+        shutil.copytree(hdir, alt, ignore=shutil.ignore_patterns("vdrive*"))
+        gm = open(os.path.join(alt, "go.mod")).read().replace("=> /repo", "=> " + REPO)
+        open(os.path.join(alt, "go.mod"), "w").write(gm)
+        hdir = alt
+        dst = os.path.join(OUT, "bin", name + "-" + tag)
     gosum = os.path.join(hdir, "go.sum")
-    if os.path.exists(os.path.join(REPO, "go.sum")):
-        shutil.copyfile(os.path.join(REPO, "go.sum"), gosum)
     cmd = ["go", "build", "-tags", tags, "-o", dst]
     if race:
         cmd.insert(2, "-race")
@@ -171,6 +182,9 @@ class Check:
         self.env = {"VERIF_SEED": seed, "VERIF_TIER": tier}
         self.exhaustive = False
         self.extra = {}
+        self.guards = []                            # coverage-guard failures, raised only if no violation was found
+        self.origin = {}                            # trace file -> (family, programs file, driver args, env, taskset)
+        self.validated = {}                         # trace file -> trace module
 
     # -- small world ----------------------------------------------------------------------
     def small(self, module, cfg=None, workers=None, timeout=900, env=None, subdir="small", heap="8g", expect_violation=False):
@@ -239,12 +253,71 @@ class Check:
             e.update({k: str(v) for k, v in env.items()})
         t0 = time.time()
         p = sh(cmd, env=e, timeout=timeout, check=False)
+        crashfile = None
         if p.returncode != 0:
-            raise Machinery("driver failed for family %s (rc=%d):\n%s" % (fam, p.returncode, p.stdout[-4000:]))
+            if not re.search(r"^(panic:|fatal error:|goroutine \d+ \[)", p.stdout, re.M):
+                raise Machinery("driver failed for family %s (rc=%d):\n%s" % (fam, p.returncode, p.stdout[-4000:]))
+            # The driver process died inside a program (library panic in a goroutine, runtime deadlock detection, ...).
+            # Isolate: re-run serially with a marker; a program that crashes TWICE becomes a `crash` event, the rest is run.
+            log("  driver      %-28s crashed; isolating the program" % fam)
+            for f in [prefix + ".%d.ndjson" % i for i in range(shards or NCPU)]:
+                if os.path.exists(f):
+                    os.remove(f)
+            marker = prefix + ".marker"
+            crashes, start, part = [], 0, 0
+            nprog = sum(1 for _ in open(programs))
+            while start < nprog and len(crashes) < 8:
+                sp = "%s.s%d" % (prefix, part)
+                q = sh(cmd[:cmd.index("-out")] + ["-out", sp, "-shards", "1", "-seed", str(self.seed), "-marker", marker, "-from", str(start)] + (args or []), env=e, timeout=timeout, check=False)
+                part += 1
+                if q.returncode == 0:
+                    break
+                k = int(open(marker).read().strip())
+                # drop a possibly torn last line of the partial trace
+                tf = sp + ".0.ndjson"
+                if os.path.exists(tf):
+                    good = []
+                    for ln in open(tf, errors="replace"):
+                        try:
+                            ev = json.loads(ln)
+                        except Exception:
+                            break
+                        if ev.get("prog", ev.get("k")) == k and ev.get("ev") not in ("config",):
+                            continue            # events of the crashing program itself are discarded
+                        good.append(ln)
+                    open(tf, "w").write("".join(good))
+                q2 = sh(cmd[:cmd.index("-out")] + ["-out", sp + "x", "-shards", "1", "-seed", str(self.seed), "-only", str(k)] + (args or []), env=e, timeout=timeout, check=False)
+                for g in (sp + "x.0.ndjson",):
+                    if os.path.exists(g):
+                        os.remove(g)
+                if q2.returncode == 0:
+                    raise Machinery("driver crashed on program %d of family %s but not when the program was re-run alone (not reproducible):\n%s" % (k, fam, q.stdout[-3000:]))
+                m = re.search(r"^(panic:.*|fatal error:.*)$", q2.stdout, re.M)
+                frames = [ln.strip() for ln in q2.stdout.splitlines() if "go-ipa" in ln and ".go:" in ln][:6]
+                prog_line = ""
+                with open(programs) as fh:
+                    for j, ln in enumerate(fh):
+                        if j == k:
+                            prog_line = ln.strip()
+                crashes.append(dict(ev="crash", fam=fam, prog=k, kind=(m.group(1)[:60] if m else "crash"), text=((m.group(1) if m else "crash") + " | " + " | ".join(frames))[:900], program=prog_line[:4000]))
+                start = k + 1
+            crashfile = prefix + ".crash.ndjson"
+            with open(crashfile, "w") as fh:
+                for cr in crashes:
+                    fh.write(json.dumps(cr) + "\n")
+            files = sorted(f for f in ("%s.s%d.0.ndjson" % (prefix, i) for i in range(part)) if os.path.exists(f) and os.path.getsize(f) > 0)
+            for f in files:
+                self.origin[f] = dict(fam=fam, programs=programs, args=args or [], env=env or {}, taskset=taskset, race=race)
+            self.crashfiles = getattr(self, "crashfiles", []) + [crashfile]
+            self.origin[crashfile] = dict(fam=fam, programs=programs, args=args or [], env=env or {}, taskset=taskset, race=race)
+            log("  driver      %-28s %d crash(es) isolated, %d partial traces" % (fam, len(crashes), len(files)))
+            return files
         files = sorted(f for f in (prefix + ".%d.ndjson" % i for i in range(shards or NCPU)) if os.path.exists(f) and os.path.getsize(f) > 0)
         if not files:
             raise Machinery("driver produced no trace for family %s" % fam)
         log("  driver      %-28s %s %6.1fs" % (fam, p.stdout.strip().splitlines()[-1] if p.stdout.strip() else "", time.time() - t0))
+        for f in files:
+            self.origin[f] = dict(fam=fam, programs=programs, args=args or [], env=env or {}, taskset=taskset, race=race)
         return files
 
     # -- trace validation -----------------------------------------------------------------
@@ -259,6 +332,8 @@ class Check:
                 e.update(env)
             jobs.append(dict(module=module, cwd=cwd, cfg=cfg or module + ".cfg", env=e, workers=1, timeout=timeout, lib=[os.path.join(SPEC, "core")], heap=heap, metaroot=self.dir,
                              c1=c1))
+        for f in files:
+            self.validated[f] = module
         t0 = time.time()
         res = tlc_many(jobs)
         nev = 0
@@ -302,8 +377,18 @@ class Check:
                     if c is not None:
                         self.classes.add(c)
 
+    def guard(self, ok, msg):
+        """coverage guard: a failure is a machinery problem (exit 2) - unless the run found violations, which are
+        reported first (a defect may well be the reason why an expected class of outcomes is empty)"""
+        if not ok:
+            self.guards.append(msg)
+
     # -- verdict --------------------------------------------------------------------------
     def finish(self, rule, trusted=None, assumptions=None, level="model_checking", min_events=1, cleanup=True):
+        cfs = [f for f in getattr(self, "crashfiles", []) if os.path.getsize(f) > 0]
+        if cfs:
+            self.crashfiles = []
+            self.validate("Trace_Crash", cfs, env={"VERIF_PROP": self.prop}, c1=True)
         known = load_known()
         viol, kn = [], {}
         for b in self.devs:
@@ -314,7 +399,9 @@ class Check:
             else:
                 viol.append(b)
         if self.events < min_events:
-            raise Machinery("coverage guard: only %d events judged" % self.events)
+            self.guards.append("only %d events judged (expected at least %d)" % (self.events, min_events))
+        if self.guards and not viol:
+            raise Machinery("coverage guard: " + "; ".join(self.guards))
         replays = []
         for i, b in enumerate(viol[:10]):
             rp = os.path.join(self.dir, "viol-%d.json" % i)
@@ -327,7 +414,23 @@ class Check:
                             break
             except Exception:
                 pass
-            json.dump(dict(property=self.prop, tier=self.tier, seed=self.seed, deviation=b, event=evt, run_dir=self.dir, repo_head=git_head()), open(rp, "w"), indent=1)
+            org = self.origin.get(b["file"], {})
+            program = None
+            try:
+                idx = evt.get("prog", evt.get("k")) if isinstance(evt, dict) else None
+                if idx is not None and org.get("programs"):
+                    with open(org["programs"]) as fh:
+                        for j, line in enumerate(fh):
+                            if j == idx:
+                                program = line.strip()
+                                break
+            except Exception:
+                pass
+            json.dump(dict(property=self.prop, tier=self.tier, seed=self.seed, deviation=b, event=evt, family=org.get("fam"), program=program,
+                           driver_args=org.get("args"), driver_env=org.get("env"), taskset=org.get("taskset"), race=org.get("race"),
+                           trace_module=self.validated.get(b["file"]), repo_head=git_head(),
+                           how="./check %s --replay <this file> re-runs exactly this program on the current tree and validates its trace" % self.prop),
+                      open(rp, "w"), indent=1)
             replays.append(rp)
         wall = time.time() - self.t0
         cov = dict(states=self.states + self.tstates, transitions=self.transitions + self.tstates,
@@ -340,8 +443,9 @@ class Check:
         cov.update(self.extra)
         evd = dict(property_id=self.prop, tier=self.tier, seed=self.seed, level=level, coverage=cov,
                    assumptions=assumptions or [], wall_s=round(wall, 1), violations=len(viol))
-        os.makedirs(os.path.join(VERIF, "evidence"), exist_ok=True)
-        json.dump(evd, open(os.path.join(VERIF, "evidence", self.prop + ".json"), "w"), indent=1)
+        evdir = os.path.join(VERIF, "evidence") if (REPO == "/repo" and not REPLAY_MODE) else os.path.join(OUT, "evidence-alt")   # runs on scratch copies leave the evidence alone
+        os.makedirs(evdir, exist_ok=True)
+        json.dump(evd, open(os.path.join(evdir, self.prop + ".json"), "w"), indent=1)
         for k, (entry, n) in kn.items():
             log("KNOWN-FINDING: property=%s %s (%d occurrences)" % (self.prop, entry.get("what", ""), n))
         for b in self.foreign[:5]:
